@@ -1,10 +1,10 @@
-package main
+package cfgdoc
 
 // The four printers.  One abstract document has many spellings in each concrete
 // syntax (string escapes and quoting styles, integer bases and digit separators,
 // flow vs block collections, tables vs inline tables, insignificant blanks and
-// comments): with `sp` set, every rendering draws among the spellings the format
-// allows for the SAME data; with sp == nil the plain canonical one is printed.
+// comments): with `Sp` set, every rendering draws among the spellings the format
+// allows for the SAME data; with Sp == nil the plain canonical one is printed.
 
 import (
 	"fmt"
@@ -15,15 +15,15 @@ import (
 	"verifharness/internal/coqfmt"
 )
 
-var sp *coqfmt.Rng // spelling choices of the rendering in progress
+var Sp *coqfmt.Rng // spelling choices of the rendering in progress
 
-func alt(n, d int) bool { return sp != nil && sp.Chance(n, d) }
+func alt(n, d int) bool { return Sp != nil && Sp.Chance(n, d) }
 
 func pick(canon string, alts ...string) string {
-	if sp == nil {
+	if Sp == nil {
 		return canon
 	}
-	return coqfmt.Pick(sp, append([]string{canon}, alts...))
+	return coqfmt.Pick(Sp, append([]string{canon}, alts...))
 }
 
 // ---- integers ----
@@ -35,15 +35,15 @@ func groups3(dec string) string {
 }
 
 // intSpell: 'j' JSON (decimal only), 'y' YAML 1.1 as yaml.v2 resolves it, 't' TOML, 'c' Cue.
-func intSpell(f byte, d *doc) string {
-	dec := d.intText()
-	if f == 'j' || d.big || !alt(1, 3) {
+func intSpell(f byte, d *Doc) string {
+	dec := d.IntText()
+	if f == 'j' || d.Big || !alt(1, 3) {
 		return dec
 	}
-	neg := d.i < 0
-	mag := uint64(d.i)
+	neg := d.I < 0
+	mag := uint64(d.I)
 	if neg {
-		mag = uint64(-d.i)
+		mag = uint64(-d.I)
 	}
 	sign := ""
 	if neg {
@@ -63,7 +63,7 @@ func intSpell(f byte, d *doc) string {
 	if f == 'c' && mag%1000 == 0 && mag > 0 && !neg {
 		forms = append(forms, fmt.Sprintf("%dK", mag/1000))
 	}
-	return coqfmt.Pick(sp, forms)
+	return coqfmt.Pick(Sp, forms)
 }
 
 // ---- strings ----
@@ -82,7 +82,7 @@ func escString(s string, slash, x2, u8 bool) string {
 	for _, c := range s {
 		switch {
 		case c == utf8.RuneError:
-			b.WriteString(q(string(c))[1 : len(q(string(c)))-1])
+			b.WriteString(Q(string(c))[1 : len(Q(string(c)))-1])
 		case alt(1, 5) && c <= 0xFFFF && !(c >= 0xD800 && c <= 0xDFFF):
 			if x2 && c < 0x80 && alt(1, 2) {
 				fmt.Fprintf(&b, "\\x%02x", c)
@@ -94,7 +94,7 @@ func escString(s string, slash, x2, u8 bool) string {
 		case c == '/' && slash && alt(1, 2):
 			b.WriteString("\\/")
 		default:
-			e := q(string(c))
+			e := Q(string(c))
 			b.WriteString(e[1 : len(e)-1])
 		}
 	}
@@ -105,10 +105,10 @@ func escString(s string, slash, x2, u8 bool) string {
 var stampRe = regexp.MustCompile(`^[0-9]{4}-[0-9]{2}-[0-9]{2}T`)
 
 func jsonStr(s string) string {
-	if sp == nil || stampRe.MatchString(s) {
+	if Sp == nil || stampRe.MatchString(s) {
 		// (a string spelling a timestamp may be bound for a time.Time, whose UnmarshalJSON does
 		// not unescape: go.dev/issue/47353)
-		return q(s)
+		return Q(s)
 	}
 	return escString(s, true, false, false)
 }
@@ -133,10 +133,10 @@ func printable(s string, also string) bool {
 // yamlStr: double-quoted (with escapes), single-quoted, plain; block: also a literal block scalar
 // (only as the value of a block-mapping entry whose nested lines are indented by `pad`).
 func yamlStr(s string, block bool, pad string) string {
-	if sp == nil {
-		return q(s)
+	if Sp == nil {
+		return Q(s)
 	}
-	switch sp.Intn(6) {
+	switch Sp.Intn(6) {
 	case 0:
 		if printable(s, "") {
 			return "'" + strings.ReplaceAll(s, "'", "''") + "'"
@@ -152,16 +152,16 @@ func yamlStr(s string, block bool, pad string) string {
 			return "|-\n" + pad + "  " + strings.Join(lines, "\n"+pad+"  ")
 		}
 	case 3:
-		return q(s)
+		return Q(s)
 	}
-	return escString(s, true, true, true)
+	return escString(s, false, true, true) // (no \/: yaml.v2 is YAML 1.1)
 }
 
 func tomlStr(s string) string {
-	if sp == nil {
-		return q(s)
+	if Sp == nil {
+		return Q(s)
 	}
-	switch sp.Intn(6) {
+	switch Sp.Intn(6) {
 	case 0:
 		if printable(s, "\t") && !strings.Contains(s, "'") {
 			return "'" + s + "'"
@@ -177,16 +177,16 @@ func tomlStr(s string) string {
 			return "\"\"\"\n" + body + "\"\"\""
 		}
 	case 3:
-		return q(s)
+		return Q(s)
 	}
 	return escString(s, false, false, true)
 }
 
 func cueStr(s string, pad string) string {
-	if sp == nil {
-		return q(s)
+	if Sp == nil {
+		return Q(s)
 	}
-	switch sp.Intn(6) {
+	switch Sp.Intn(6) {
 	case 0:
 		if printable(s, "\t") && !strings.Contains(s, "\"#") && !strings.Contains(s, "\\#") && !strings.HasSuffix(s, "\"") {
 			return "#\"" + s + "\"#" // raw string: a backslash is a backslash
@@ -198,7 +198,7 @@ func cueStr(s string, pad string) string {
 			return "\"\"\"\n" + pad + "  " + strings.Join(lines, "\n"+pad+"  ") + "\n" + pad + "  \"\"\""
 		}
 	case 2:
-		return q(s)
+		return Q(s)
 	}
 	return escString(s, true, false, true)
 }
@@ -206,39 +206,39 @@ func cueStr(s string, pad string) string {
 // ---- JSON ----
 func jws() string { return pick("", "", " ", "  ", "\n", "\t", "\n  ") }
 
-func toJSON(d *doc) string {
+func ToJSON(d *Doc) string {
 	sep := func(c, canon string) string {
-		if sp == nil {
+		if Sp == nil {
 			return canon
 		}
 		return jws() + c + jws()
 	}
-	switch d.kind {
-	case dList:
-		parts := make([]string, len(d.list))
-		for i, e := range d.list {
-			parts[i] = toJSON(e)
+	switch d.Kind {
+	case List:
+		parts := make([]string, len(d.List))
+		for i, e := range d.List {
+			parts[i] = ToJSON(e)
 		}
 		return "[" + jws() + strings.Join(parts, sep(",", ", ")) + jws() + "]"
-	case dMap:
-		parts := make([]string, len(d.kvs))
-		for i, e := range d.kvs {
-			parts[i] = jsonStr(e.k) + sep(":", ": ") + toJSON(e.v)
+	case Map:
+		parts := make([]string, len(d.KVs))
+		for i, e := range d.KVs {
+			parts[i] = jsonStr(e.K) + sep(":", ": ") + ToJSON(e.V)
 		}
 		return "{" + jws() + strings.Join(parts, sep(",", ", ")) + jws() + "}"
-	case dBool:
-		if d.b {
+	case Bool:
+		if d.B {
 			return "true"
 		}
 		return "false"
-	case dInt:
+	case Int:
 		return intSpell('j', d)
 	}
-	if d.kind == dTime {
+	if d.Kind == Time {
 		// encoding/json's Time.UnmarshalJSON does not unescape its string (go.dev/issue/47353)
-		return q(d.s)
+		return Q(d.S)
 	}
-	return jsonStr(d.s)
+	return jsonStr(d.S)
 }
 
 // ---- Cue ----
@@ -252,8 +252,8 @@ func cueLabel(k string) string {
 	if ok && !strings.HasPrefix(k, "_") && !cueKeyword[k] && !alt(1, 4) {
 		return k
 	}
-	if sp == nil {
-		return q(k)
+	if Sp == nil {
+		return Q(k)
 	}
 	return escString(k, true, false, true)
 }
@@ -269,34 +269,34 @@ func cueComment() string {
 	return ""
 }
 
-func toCueAt(d *doc, top bool, pad string) string {
-	switch d.kind {
-	case dList:
-		parts := make([]string, len(d.list))
-		for i, e := range d.list {
+func toCueAt(d *Doc, top bool, pad string) string {
+	switch d.Kind {
+	case List:
+		parts := make([]string, len(d.List))
+		for i, e := range d.List {
 			parts[i] = toCueAt(e, false, pad)
 		}
 		if len(parts) > 0 && alt(1, 4) {
 			return "[\n" + pad + "  " + strings.Join(parts, ",\n"+pad+"  ") + ",\n" + pad + "]"
 		}
 		return "[" + strings.Join(parts, ", ") + "]"
-	case dMap:
+	case Map:
 		multi := top || alt(1, 3)
 		inner := pad
 		if !top {
 			inner = pad + "  "
 		}
-		parts := make([]string, len(d.kvs))
-		for i, e := range d.kvs {
+		parts := make([]string, len(d.KVs))
+		for i, e := range d.KVs {
 			val := ""
 			// a: b: c: 1 - the shorthand for nested single-field structs
-			if e.v.kind == dMap && len(e.v.kvs) == 1 && alt(1, 2) {
-				in := e.v.kvs[0]
-				val = cueLabel(in.k) + ": " + toCueAt(in.v, false, inner)
+			if e.V.Kind == Map && len(e.V.KVs) == 1 && alt(1, 2) {
+				in := e.V.KVs[0]
+				val = cueLabel(in.K) + ": " + toCueAt(in.V, false, inner)
 			} else {
-				val = toCueAt(e.v, false, inner)
+				val = toCueAt(e.V, false, inner)
 			}
-			parts[i] = cueLabel(e.k) + pick(": ", ":", ":  ", ":\t") + val
+			parts[i] = cueLabel(e.K) + pick(": ", ":", ":  ", ":\t") + val
 		}
 		switch {
 		case top && alt(1, 5):
@@ -316,52 +316,52 @@ func toCueAt(d *doc, top bool, pad string) string {
 			return "{\n" + inner + strings.Join(parts, pick(",\n", "\n")+inner) + "\n" + pad + "}"
 		}
 		return "{" + strings.Join(parts, ", ") + "}"
-	case dBool:
-		if d.b {
+	case Bool:
+		if d.B {
 			return "true"
 		}
 		return "false"
-	case dInt:
+	case Int:
 		return intSpell('c', d)
 	}
-	return cueStr(d.s, pad)
+	return cueStr(d.S, pad)
 }
 
-func toCue(d *doc, top bool) string { return toCueAt(d, top, "") }
+func ToCue(d *Doc, top bool) string { return toCueAt(d, top, "") }
 
 // ---- YAML ----
 func yamlKey(k string) string {
-	if sp != nil && sp.Chance(1, 3) && yamlPlainSafe(k) {
+	if Sp != nil && Sp.Chance(1, 3) && yamlPlainSafe(k) {
 		return k
 	}
 	return yamlStr(k, false, "")
 }
 
-func yamlScalar(d *doc, block bool, pad string) string {
-	switch d.kind {
-	case dBool:
-		if d.b {
+func yamlScalar(d *Doc, block bool, pad string) string {
+	switch d.Kind {
+	case Bool:
+		if d.B {
 			return pick("true", "true", "True", "TRUE", "yes", "on")
 		}
 		return pick("false", "false", "False", "FALSE", "no", "off")
-	case dInt:
+	case Int:
 		return intSpell('y', d)
 	}
-	return yamlStr(d.s, block, pad)
+	return yamlStr(d.S, block, pad)
 }
 
-func yamlFlow(d *doc) string {
-	switch d.kind {
-	case dList:
-		parts := make([]string, len(d.list))
-		for i, e := range d.list {
+func yamlFlow(d *Doc) string {
+	switch d.Kind {
+	case List:
+		parts := make([]string, len(d.List))
+		for i, e := range d.List {
 			parts[i] = yamlFlow(e)
 		}
 		return "[" + strings.Join(parts, pick(", ", ",", " , ")) + "]"
-	case dMap:
-		parts := make([]string, len(d.kvs))
-		for i, e := range d.kvs {
-			parts[i] = yamlKey(e.k) + ": " + yamlFlow(e.v)
+	case Map:
+		parts := make([]string, len(d.KVs))
+		for i, e := range d.KVs {
+			parts[i] = yamlKey(e.K) + ": " + yamlFlow(e.V)
 		}
 		return "{" + strings.Join(parts, ", ") + "}"
 	}
@@ -378,42 +378,42 @@ func yamlEol() string {
 	return "\n"
 }
 
-func toYAML(d *doc, indent int) string {
+func ToYAML(d *Doc, indent int) string {
 	pad := strings.Repeat("  ", indent)
-	if d.kind != dMap {
+	if d.Kind != Map {
 		return pad + yamlFlow(d) + "\n"
 	}
-	if len(d.kvs) == 0 {
+	if len(d.KVs) == 0 {
 		return pad + "{}\n"
 	}
 	var sb strings.Builder
 	if indent == 0 && alt(1, 10) {
 		sb.WriteString("---\n")
 	}
-	for _, e := range d.kvs {
+	for _, e := range d.KVs {
 		colon := pick(": ", ":  ", ": ")
 		switch {
-		case isScalar(e.v):
-			v := yamlScalar(e.v, true, pad)
-			sb.WriteString(pad + yamlKey(e.k) + colon + v)
+		case IsScalar(e.V):
+			v := yamlScalar(e.V, true, pad)
+			sb.WriteString(pad + yamlKey(e.K) + colon + v)
 			if strings.HasPrefix(v, "|") {
 				sb.WriteString("\n")
 			} else {
 				sb.WriteString(yamlEol())
 			}
-		case e.v.kind == dMap && len(e.v.kvs) == 0:
-			sb.WriteString(pad + yamlKey(e.k) + ": {}" + yamlEol())
-		case e.v.kind == dList && len(e.v.list) == 0:
-			sb.WriteString(pad + yamlKey(e.k) + ": []" + yamlEol())
+		case e.V.Kind == Map && len(e.V.KVs) == 0:
+			sb.WriteString(pad + yamlKey(e.K) + ": {}" + yamlEol())
+		case e.V.Kind == List && len(e.V.List) == 0:
+			sb.WriteString(pad + yamlKey(e.K) + ": []" + yamlEol())
 		case alt(1, 4):
-			sb.WriteString(pad + yamlKey(e.k) + colon + yamlFlow(e.v) + yamlEol())
-		case e.v.kind == dList && isScalar(e.v.list[0]) && !alt(1, 2):
-			sb.WriteString(pad + yamlKey(e.k) + colon + yamlFlow(e.v) + yamlEol())
-		case e.v.kind == dList:
-			sb.WriteString(pad + yamlKey(e.k) + ":" + yamlEol())
-			for _, it := range e.v.list {
-				if it.kind == dMap && len(it.kvs) > 0 {
-					body := toYAML(it, indent+2)
+			sb.WriteString(pad + yamlKey(e.K) + colon + yamlFlow(e.V) + yamlEol())
+		case e.V.Kind == List && IsScalar(e.V.List[0]) && !alt(1, 2):
+			sb.WriteString(pad + yamlKey(e.K) + colon + yamlFlow(e.V) + yamlEol())
+		case e.V.Kind == List:
+			sb.WriteString(pad + yamlKey(e.K) + ":" + yamlEol())
+			for _, it := range e.V.List {
+				if it.Kind == Map && len(it.KVs) > 0 {
+					body := ToYAML(it, indent+2)
 					// turn the first line's indentation into "- "
 					sb.WriteString(pad + "  - " + strings.TrimPrefix(body, strings.Repeat("  ", indent+2)))
 				} else {
@@ -421,7 +421,7 @@ func toYAML(d *doc, indent int) string {
 				}
 			}
 		default:
-			sb.WriteString(pad + yamlKey(e.k) + ":" + yamlEol() + toYAML(e.v, indent+1))
+			sb.WriteString(pad + yamlKey(e.K) + ":" + yamlEol() + ToYAML(e.V, indent+1))
 		}
 	}
 	return sb.String()
@@ -438,42 +438,42 @@ func tomlKey(k string) string {
 	if ok && !alt(1, 4) {
 		return k
 	}
-	if sp == nil {
-		return q(k)
+	if Sp == nil {
+		return Q(k)
 	}
 	if alt(1, 2) && printable(k, "") && !strings.Contains(k, "'") {
 		return "'" + k + "'"
 	}
-	return q(k) // (go-toml does not resolve \u escapes in quoted keys: none is written)
+	return Q(k) // (go-toml does not resolve \u escapes in quoted keys: none is written)
 }
 
-func tomlInline(d *doc, nl bool) string {
-	switch d.kind {
-	case dTime:
+func tomlInline(d *Doc, nl bool) string {
+	switch d.Kind {
+	case Time:
 		if alt(1, 4) {
-			return strings.Replace(d.s, "T", " ", 1)
+			return strings.Replace(d.S, "T", " ", 1)
 		}
-		return d.s
-	case dBool:
-		if d.b {
+		return d.S
+	case Bool:
+		if d.B {
 			return "true"
 		}
 		return "false"
-	case dInt:
+	case Int:
 		return intSpell('t', d)
-	case dStr:
-		if !nl && sp != nil {
+	case Str:
+		if !nl && Sp != nil {
 			// inside an inline table: no multi-line spellings
 			for {
-				if s := tomlStr(d.s); !strings.Contains(s, "\n") {
+				if s := tomlStr(d.S); !strings.Contains(s, "\n") {
 					return s
 				}
 			}
 		}
-		return tomlStr(d.s)
-	case dList:
-		parts := make([]string, len(d.list))
-		for i, e := range d.list {
+		return tomlStr(d.S)
+	case List:
+		parts := make([]string, len(d.List))
+		for i, e := range d.List {
 			parts[i] = tomlInline(e, nl)
 		}
 		if nl && len(parts) > 0 && alt(1, 4) {
@@ -481,9 +481,9 @@ func tomlInline(d *doc, nl bool) string {
 		}
 		return "[" + strings.Join(parts, pick(", ", ",", " , ")) + "]"
 	}
-	parts := make([]string, len(d.kvs))
-	for i, e := range d.kvs {
-		parts[i] = tomlKey(e.k) + " = " + tomlInline(e.v, false)
+	parts := make([]string, len(d.KVs))
+	for i, e := range d.KVs {
+		parts[i] = tomlKey(e.K) + " = " + tomlInline(e.V, false)
 	}
 	if len(parts) == 0 {
 		return "{}"
@@ -501,26 +501,26 @@ func tomlEol() string {
 	return "\n"
 }
 
-func toTOML(d *doc, path []string, sb *strings.Builder) {
-	inline := make([]bool, len(d.kvs))
-	for i, e := range d.kvs {
-		tables := e.v.kind == dMap || (e.v.kind == dList && len(e.v.list) > 0 && e.v.list[0].kind == dMap)
+func toTOML(d *Doc, path []string, sb *strings.Builder) {
+	inline := make([]bool, len(d.KVs))
+	for i, e := range d.KVs {
+		tables := e.V.Kind == Map || (e.V.Kind == List && len(e.V.List) > 0 && e.V.List[0].Kind == Map)
 		inline[i] = !tables || alt(1, 4)
 		if inline[i] {
-			sb.WriteString(tomlKey(e.k) + pick(" = ", "=", "  =  ") + tomlInline(e.v, !tables) + tomlEol())
+			sb.WriteString(tomlKey(e.K) + pick(" = ", "=", "  =  ") + tomlInline(e.V, !tables) + tomlEol())
 		}
 	}
-	for i, e := range d.kvs {
+	for i, e := range d.KVs {
 		if inline[i] {
 			continue
 		}
-		p := append(append([]string{}, path...), tomlKey(e.k))
+		p := append(append([]string{}, path...), tomlKey(e.K))
 		switch {
-		case e.v.kind == dMap:
+		case e.V.Kind == Map:
 			sb.WriteString("\n[" + strings.Join(p, ".") + "]" + tomlEol()) // (no blanks around the dots: go-toml mis-reads them)
-			toTOML(e.v, p, sb)
+			toTOML(e.V, p, sb)
 		default:
-			for _, it := range e.v.list {
+			for _, it := range e.V.List {
 				sb.WriteString("\n[[" + strings.Join(p, ".") + "]]" + tomlEol())
 				toTOML(it, p, sb)
 			}
@@ -528,7 +528,7 @@ func toTOML(d *doc, path []string, sb *strings.Builder) {
 	}
 }
 
-func renderTOML(d *doc) string {
+func RenderTOML(d *Doc) string {
 	var sb strings.Builder
 	toTOML(d, nil, &sb)
 	return sb.String()
